@@ -15,12 +15,12 @@ macro_rules! run_call {
     ($fft:expr, $kind:expr, $a:expr, $b:expr, $dst:expr, $n:expr) => {{
         match $kind {
             "multiply" => $fft.multiply($a, $b),
-            "multiply_into" => {
+            "multiply_into" | "multiply_into_short" => {
                 let mut d: Vec<i64> = $dst.clone();
                 $fft.multiply_into($a, $b, &mut d);
                 d
             }
-            "inv_into" => {
+            "inv_into" | "inv_into_short" => {
                 let fa = $fft.fft($a, $n);
                 let fb = $fft.fft($b, $n);
                 let prod: Vec<_> = fa.iter().zip(fb.iter()).map(|(x, y)| *x * *y).collect();
@@ -142,11 +142,12 @@ macro_rules! record_with {
             let (sa, sb) = (rng.below(4), rng.below(4));
             let a = coeffs(rng, la, max, sa);
             let b = coeffs(rng, lb, max, sb);
-            let kind = ["multiply", "multiply_into", "pointwise", "multiply", "inv_into"][call % 5];
+            let kind = ["multiply", "multiply_into", "pointwise", "multiply", "inv_into", "multiply_into_short", "inv_into_short"][call % 7];
             let mut n = 2;
             while n < la + lb - 1 { n *= 2; }
-            let dst: Vec<i64> = if kind == "multiply_into" { (0..la + lb + 2).map(|i| (i as i64 % 7) - 3).collect() }
-                                else if kind == "inv_into" { (0..n + 5).map(|i| (i as i64 % 7) - 3).collect() } else { vec![] };
+            let dlen = match kind { "multiply_into" => la + lb + 2, "inv_into" => n + 5, "multiply_into_short" => (la + lb).saturating_sub(2).max(1),
+                                    "inv_into_short" => la + lb - 1, _ => 0 };
+            let dst: Vec<i64> = (0..dlen).map(|i| (i as i64 % 7) - 3).collect();
             let r = catch(|| run_call!(obj, kind, &a, &b, dst, n));
             seq += 1;
             let mut ev = json!({"ev": "call", "kind": kind, "float": $fname, "a": a, "b": b, "dst": dst, "n": n, "seq": seq, "max": max});
